@@ -39,6 +39,8 @@ func C02(c *core.Ctx) {
 		}
 		return false
 	})
+	ledgerGen(c, "mapping", c.Pick(1500, 60000))
+	ledgerGen(c, "close", c.Pick(500, 20000))
 }
 
 // C03: valued balances are mark-to-market at the latest known price (exact regime).
@@ -50,7 +52,7 @@ func C03(c *core.Ctx) {
 	var bcs []balCase
 	n := c.Pick(300, 4000)
 	for i := 0; i < n; i++ {
-		j := kj.Random(rng, kj.GenOpts{Valued: true, MaxDirs: 12, DensePrices: i%3 == 0}, 18262+rng.Intn(60))
+		j := kj.Random(rng, kj.GenOpts{Valued: true, MaxDirs: 12, DensePrices: i%3 == 0, AltQuotes: i%4 == 1}, 18262+rng.Intn(60))
 		if rng.Intn(6) == 0 {
 			// drop the initial price declarations: some needed price is now missing
 			var ds []kj.Dir
@@ -80,4 +82,5 @@ func C03(c *core.Ctx) {
 		}
 		return false
 	})
+	ledgerGen(c, "valued", c.Pick(1500, 60000))
 }
